@@ -60,6 +60,16 @@ Definition check_case (c : list instr * (observed + string)) : bool :=
   | _, _ => false
   end.
 
+(* a session: SEVERAL results of one program (several calls on the same objects) are compared,
+   each with what the implementation holds for it after the whole program was built *)
+Definition check_session (c : list instr * list (nat * observed)) : bool :=
+  let '(p, exps) := c in
+  match run [] p with
+  | Ok env => forallb (fun io : nat * observed =>
+                match nth_error env (fst io) with Some a => check_arr a (snd io) | None => false end) exps
+  | Err _ => false
+  end.
+
 (* what the model says, for diagnosis from the harness *)
 Definition model_error (p : list instr) : string :=
   match run [] p with Ok _ => "ok" | Err e => e end.
